@@ -57,6 +57,7 @@ fn main() {
         Some("joinrec") => models::join::cmd_joinrec(&args),
         Some("reterec") => models::rete::cmd_reterec(&args),
         Some("bwrec") => models::backward::cmd_bwrec(&args),
+        Some("fwdrec") => models::forward::cmd_fwdrec(&args),
         Some("kbstress") => models::kb::cmd_stress(&args),
         _ => {
             eprintln!("usage: vh replay|replay-one <model> <file> [opts]");
